@@ -55,7 +55,10 @@ func (t *topology) Update(primaryNode string, secondaries ...string) {
 		var found bool
 		for _, oldEndpoint := range t.endpoints {
 			if oldEndpoint.url == url {
-				// Take over the old endpoint
+				// Take over the old endpoint; it may have been the primary until now
+				oldEndpoint.Lock()
+				oldEndpoint.nodeType = secondary
+				oldEndpoint.Unlock()
 				newEndpoints = append(newEndpoints, oldEndpoint)
 				found = true
 				break
